@@ -136,11 +136,11 @@ func init() {
 			Runs: []Run{
 				{S: c03Scenario("po-3of3-min2", []string{"S1", "S2", "S3"}, 2, true), Opt: map[Tier]Options{
 					Quick:    {Depth: 5, Budget: 150 * time.Second, ReplayEvery: 16},
-					Thorough: {Depth: 6, Budget: 25 * time.Minute, ReplayEvery: 16, MaxStates: 500000},
+					Thorough: {Depth: 6, Budget: 12 * time.Minute, ReplayEvery: 16, MaxStates: 500000},
 				}},
 				{S: c03Scenario("po-1of1", []string{"S1"}, 1, false), Opt: map[Tier]Options{
 					Quick:    {Depth: 4, Budget: 60 * time.Second, ReplayEvery: 8},
-					Thorough: {Depth: 6, Budget: 10 * time.Minute, ReplayEvery: 16, MaxStates: 300000},
+					Thorough: {Depth: 6, Budget: 5 * time.Minute, ReplayEvery: 16, MaxStates: 300000},
 				}},
 			},
 			Owns:        c03Owns,
